@@ -466,6 +466,11 @@ def run_kern_lab(outdir, seed, tier, log):
                     if vname == "plain":
                         scs += [dict(b6, proto="udp", method="", port=33434, port_state=0, parallel=2),
                                 dict(b6, proto="icmp", method="", port=0, port_state=0, first=min(2, n + 1))]
+                if vname == "plain" and n >= 2:
+                    # a firewalled port: SYNs are dropped, connect() times out -> SACK unavailable; SYN probes die at the target too
+                    c.filter_port(8082)
+                    scs += [dict(base, proto="tcp", method="prefer_sack", port=8082, port_state=3, last=n + 2),
+                            dict(base, proto="tcp", method="sack", port=8082, port_state=3, last=n + 2)]
                 if vname == "plain":
                     scs += [dict(base, proto="udp", method="", port=33434, port_state=0, first=min(2, n + 1)),
                             dict(base, proto="icmp", method="", port=0, port_state=0, last=max(1, n)),        # stops before the destination
